@@ -104,6 +104,20 @@ func c08Check(c c08Case) vfResult {
 			r.Err = fmt.Errorf("magic.JSON rejects valid JSON at limit %d (len %d): header %s", L, len(doc), vfQ(h))
 			return r
 		}
+		// reader route with a limit history (every 7th limit and the boundaries)
+		if L <= 1<<20 && (L%7 == 0 || int(L) >= len(doc)) {
+			prev := uint32(16)
+			if L%2 == 1 {
+				prev = uint32(len(doc) + 64)
+			}
+			mr, err := vfReaderAfter(prev, L, doc)
+			r.N++
+			if err != nil || mr == nil || (!c08IsJSONFamily(mr) && c08HigherPriority(h, L) == "") {
+				r.Err = fmt.Errorf("DetectReader at limit %d (after a reader detection under limit %d) reports (%s, %v) for valid JSON header %s", L, prev, vfChainStr(mr), err, vfQ(h))
+				return r
+			}
+			r.LabelN["reader-after-other-limit"]++
+		}
 		m := vfDetectAt(doc, L)
 		if !c08IsJSONFamily(m) {
 			if hp := c08HigherPriority(h, L); hp != "" {
